@@ -26,7 +26,7 @@ type C10Case struct {
 	Cmd    string       `json:"cmd"` // validate | generate
 }
 
-const c10Rule = "generators: bytes (raw / spliced into a valid file), tree (random YAML trees with yardl tags), mutate (valid generated package with 1-4 structural YAML mutations), strings (grammar-derived type and expression strings), expr (well-formed expressions over a record with a field of every shape, incl. arrays mixing named and unnamed dimensions), refs (2-6 definitions whose type references and enum base types are drawn freely from a small pool of names: cycles, self references, wrong arities), manifest (random _package.yml); tree/mutate/strings/expr/refs texts are rendered in block style or entirely in flow style (one line, or with line breaks that put scalars into the first column); each case runs the real CLI (validate, 1 in 4 also generate) under a 10 s / 4 GiB limit. non-trivial = the input got past YAML syntax into yardl's own unmarshalling/validation (exit 0, or an error that is not a YAML scanner/parser error); distinct = hash of all file contents"
+const c10Rule = "generators: bytes (raw / spliced into a valid file), tree (random YAML trees with yardl tags), mutate (valid generated package with 1-4 structural YAML mutations), strings (grammar-derived type and expression strings), expr (well-formed expressions over a record with a field of every shape, incl. arrays mixing named and unnamed dimensions), refs (2-6 definitions whose type references and enum base types are drawn freely from a small pool of names: cycles, self references, wrong arities), manifest (random _package.yml: random keys and values, or a valid manifest plus 1-2 further keys - imports, versions incl. a version label that names the package itself, target sections - or a document that is no mapping: empty, null, a scalar, a sequence); tree/mutate/strings/expr/refs texts are rendered in block style or entirely in flow style (one line, or with line breaks that put scalars into the first column); each case runs the real CLI (validate, 1 in 4 also generate) under a 10 s / 4 GiB limit. non-trivial = the input got past YAML syntax into yardl's own unmarshalling/validation (exit 0, or an error that is not a YAML scanner/parser error); distinct = hash of all file contents"
 
 var yamlSyntaxRe = regexp.MustCompile(`(did not find|could not find|found character|found unexpected|mapping values are not allowed|while scanning|while parsing|control characters are not allowed|invalid leading UTF-8|incomplete UTF-8|block sequence entries are not allowed|found unknown|expected a|unknown anchor|did not find expected|invalid trailing UTF-8|found undefined tag handle|found incompatible YAML|cannot unmarshal|yaml: )`)
 
@@ -536,9 +536,33 @@ func genC10(t *rapid.T) C10Case {
 		root := model.YMap()
 		keys := []string{"namespace", "imports", "versions", "cpp", "python", "matlab", "json", "bogus"}
 		n := rapid.IntRange(0, 5).Draw(t, "mkeys")
+		// half of the manifests start out valid (a namespace and an output) and get 1-2 further keys, so
+		// that what the keys hold is reached by the loader and, for generate, by the code behind it
+		fromValid := rapid.Bool().Draw(t, "mFromValid")
+		if fromValid {
+			root.Put("namespace", model.YS("Main"))
+			jm := model.YMap()
+			jm.Put("outputDir", model.YS("../out/json"))
+			root.Put("json", jm)
+			keys = []string{"imports", "versions", "versions", "cpp", "python", "matlab", "bogus"}
+			n = rapid.IntRange(1, 2).Draw(t, "mkeysValid")
+			if rapid.Bool().Draw(t, "mGenerate") {
+				c.Cmd = "generate"
+			}
+		}
 		for i := 0; i < n; i++ {
 			k := rapid.SampledFrom(keys).Draw(t, "mkey")
 			var v *model.YNode
+			if fromValid && k == "versions" && rapid.IntRange(0, 2).Draw(t, "mVersionsMap") != 0 {
+				// a well-formed versions map: labels -> package locations, among them the package itself
+				m := model.YMap()
+				for j, nl := 0, rapid.IntRange(1, 2).Draw(t, "mLabels"); j < nl; j++ {
+					m.Put(rapid.SampledFrom([]string{"v1", "v_1", "cur", "v2", "1v"}).Draw(t, "mLabel"),
+						model.YS(rapid.SampledFrom([]string{".", "../main", "./", "../main/", "../imp", "../nope", ""}).Draw(t, "mLoc")))
+				}
+				root.Put(k, m)
+				continue
+			}
 			switch rapid.IntRange(0, 3).Draw(t, "mval") {
 			case 0:
 				v = genTree(t, 2)
@@ -559,7 +583,8 @@ func genC10(t *rapid.T) C10Case {
 		}
 		txt := root.Render()
 		if len(root.Keys) == 0 {
-			txt = ""
+			// a manifest that is no mapping at all
+			txt = rapid.SampledFrom([]string{"", "~\n", "null\n", "[]\n", "3\n", "''\n", "---\n", "--- ~\n...\n", "# nothing\n", "{}\n", "!!map\n"}).Draw(t, "mDoc")
 		}
 		c.Layout = model.Layout{
 			"main": {"_package.yml": txt, "m.yml": "R: !record\n  fields:\n    a: int\nP: !protocol\n  sequence:\n    r: R\n"},
